@@ -335,6 +335,12 @@ func C12(c *wk.Ctx) {
 						switch {
 						case err != nil:
 							u.Trouble = "isolated re-execution failed: " + err.Error()
+						case iso == nil && (fl.Class == "nil-error" || fl.Class == "panic"):
+							// these two need no reference output: a failed write that no error reports, or a
+							// panic, violates the statement on the n-th render of a bundle as on the first
+							u.Counters["violations_that_need_the_renders_before_them"]++
+							fl.Detail += " (only after the earlier renders of this bundle: the same fault on a freshly compiled bundle is reported correctly)"
+							u.AddFail(fl)
 						case iso == nil:
 							u.Counters["candidate_not_confirmed_in_isolation_history_dependence_left_to_C08"]++
 						case iso.Class == "history":
